@@ -29,11 +29,21 @@ the ORG check, `assignAddrs`, `fixAll`, `evalSyms`, `finalSymTab`; lemmas in `Le
   not tie the operand text, from which PSHS / EXG read their registers): `PSHS A` / `PSHS B`.
 
 Batch 8 (symbols and expressions inside FCB / FDB lists, `evalLists`): the elements of a list are evaluated from the
-operand TEXT, which `renameStmt` does not rename and `Rename.rnStmt` only maps by `txt`; `RenOK` has the new field `lists`
-(`NoPendingLists`: the FCB / FDB lists of the program are lists of literals) and `TxtOK` a second clause (`txt` leaves the
-texts of these lists alone). `C18_R2_witness_lists`: a program with literal lists.
+operand TEXT, which `renameStmt` does not rename and `Rename.rnStmt` only maps by `txt`.
+* `RenOK` has the field `lists : ListsSimple ρ ss` (an element that the list pass evaluates — a symbol, an expression — is
+  not `A`/`B`/`D`, has one of the shapes `SimpleLeft`, and its new names are symbols again), and `inj` is over `allNames`
+  (`progNames` and the symbols of these elements, `Rename.listNames`);
+* `TxtOK ρ txt ss` has a second clause: the text of a list is renamed element by element,
+  `listElems (txt text) = (listElems text).map (Rename.renameElemText ρ)` (an evaluated element by `renameLeftText ρ`, a
+  literal left alone; `txtOK_of_leftText`: the same as `renameLeftText ρ` on every element when all are `SimpleLeft`);
+* the theorems with a renaming of the texts (`C18_R2_back_text`, `C18_R2_full_text`, `C18_R2_text_check`) cover jump
+  tables `FDB L1,L2,T,L1+1` (`C18_R2_witness_jumptable`); the theorems about `renameStmt` (texts left alone: `C18_R2_back`,
+  `C18_R2_full`, `C18_R2_symtab`, `C18_R2_assemble`) ask `NoPendingLists ss` (the lists are lists of literals) in addition —
+  the first version of batch 8 had it inside `RenOK`; `RenOK.of_noPending`, `listsSimple_of_noPending`, `txtOK_of_noPending`
+  give the new hypotheses from the old ones. `C18_R2_witness_lists`: a program with literal lists.
 
-Not covered: FCB / FDB lists with a symbol or an expression among their elements (jump tables `FDB L1,L2`); a closed-form text-level theorem (`parseLine` of a textually renamed line for every operand syntax) — the
+Not covered: an evaluated list element that is `A`, `B` or `D` (a label of that name inside a list: `renameLeftText` leaves
+these alone) or outside `SimpleLeft`; a closed-form text-level theorem (`parseLine` of a textually renamed line for every operand syntax) — the
 text level is reached through the check `renamedTextB`; index left parts outside `SimpleLeft` (a mode prefix `<`, `>`,
 `#` before a symbol, an operand of an expression that is not a symbol, a decimal up to 65535 or `$` with one to four
 hex digits).
@@ -105,38 +115,93 @@ def NoPendingLists (ss : List Stmt) : Prop :=
   ∀ x, Rename.preLists ss = some x → ∀ s ∈ x, Rename.isList s.pkg.additional = true →
     Rename.litElems s.operand.text = true
 
+/-- (batch 8, generalised) the elements of the FCB / FDB lists that the list pass evaluates (symbols, expressions:
+`Rename.pendingAny`) are simple: not `A` / `B` / `D`, one of the shapes `SimpleLeft` (a symbol, `atom op atom`), and the new
+names in them are symbols again (`Rename.ElemSimple`). `preLists ss` are the statements as they reach the list pass.
+`listsSimpleB` is the executable form. A program with `NoPendingLists` satisfies it trivially (`listsSimple_of_noPending`). -/
+def ListsSimple (ρ : Str → Str) (ss : List Stmt) : Prop :=
+  ∀ x, Rename.preLists ss = some x → ∀ s ∈ x, Rename.isList s.pkg.additional = true →
+    ∀ e ∈ listElems s.operand.text, Rename.ElemSimple ρ e
+
+theorem listsSimple_of_noPending (ρ : Str → Str) {ss : List Stmt} (h : NoPendingLists ss) : ListsSimple ρ ss := by
+  intro x hx s hs hl e he hp
+  rw [Rename.litElems_any (h x hx s hs hl) e he] at hp
+  cases hp
+
+/-- the names that occur in `ss`: labels, symbols in operands, symbols in index left parts (`Rename.progNames`), and
+(batch 8) the symbols in the elements of FCB / FDB lists (`Rename.listNames`) -/
+def allNames (ss : List Stmt) : List Str := Rename.progNames ss ++ Rename.listNames ss
+
 /-- what C18-R2 asks of the renaming `ρ` of the program `ss`:
-* `inj` — two names that occur in `ss` (labels, symbols in operands, symbols in index left parts) are not renamed to
-  the same name;
+* `inj` — two names that occur in `ss` (labels, symbols in operands, symbols in index left parts, symbols in the
+  elements of FCB / FDB lists: `allNames`) are not renamed to the same name;
 * `label` — a renamed label is still a label;
 * `left` — the text of an index left part (`TABLE` in `LDA TABLE,X`) is one of the shapes `SimpleLeft` (empty, `A`/`B`/`D`,
   a symbol, a number, `atom op atom`, …), the statement is not an FCC, and the new names in it are symbols again and
   not `A`, `B`, `D` unless the old one was;
-* `lists` (batch 8, symbols inside FCB / FDB lists) — `NoPendingLists ss`: no FCB / FDB LIST has a symbol or an expression
-  among its elements. Such elements are evaluated from the operand TEXT (`evalLists`), which `renameStmt` does not
-  rename -/
+* `lists` (batch 8, symbols inside FCB / FDB lists) — `ListsSimple ρ ss`: an element of an FCB / FDB LIST that is a symbol
+  or an expression is simple, its new names are symbols. Such elements are evaluated from the operand TEXT
+  (`evalLists`), which `renameStmt` does not rename: the theorems about `renameStmt` ask `NoPendingLists ss` in
+  addition, those with a renaming `txt` of the texts ask `TxtOK` (the texts of the lists renamed element-wise) -/
 structure RenOK (ρ : Str → Str) (ss : List Stmt) : Prop where
-  inj : Rename.InjOn ρ (Rename.progNames ss)
+  inj : Rename.InjOn ρ (allNames ss)
   label : ∀ s ∈ ss, s.label ≠ [] → ρ s.label ≠ []
   left : ∀ s ∈ ss, ∀ l, s.operand.left = .text l →
     s.row.isStringDefine = false ∧ Rename.SimpleLeft l = true ∧ ∀ x ∈ Rename.leftNames l, Rename.GoodName x (ρ x)
-  lists : NoPendingLists ss
+  lists : ListsSimple ρ ss
 
-/-- a renaming of operand texts must leave the register lists of PSHS / PULS / EXG / TFR alone, and (batch 8) the texts
-of the FCB / FDB lists (lists of literals under `RenOK.lists`: there is no name in them) -/
-def TxtOK (txt : Str → Str) (ss : List Stmt) : Prop :=
+/-- a renaming of operand texts must leave the register lists of PSHS / PULS / EXG / TFR alone, and (batch 8) rename the
+texts of the FCB / FDB lists element by element: an element that the list pass evaluates (a symbol, an expression) is
+renamed like an index left part (`renameLeftText`), a literal is left alone (`Rename.renameElemText`) -/
+def TxtOK (ρ txt : Str → Str) (ss : List Stmt) : Prop :=
   (∀ s ∈ ss, s.operand.kind = .special → txt s.operand.text = s.operand.text) ∧
   ∀ x, Rename.preLists ss = some x → ∀ s ∈ x, Rename.isList s.pkg.additional = true →
-    txt s.operand.text = s.operand.text
+    listElems (txt s.operand.text) = (listElems s.operand.text).map (Rename.renameElemText ρ)
 
-theorem txtOK_id (ss : List Stmt) : TxtOK id ss := ⟨fun _ _ _ => rfl, fun _ _ _ _ _ => rfl⟩
+/-- the first form of the clause about lists (lists of literals, texts left alone) is an instance -/
+theorem txtOK_of_noPending {ρ txt : Str → Str} {ss : List Stmt} (hl : NoPendingLists ss)
+    (h1 : ∀ s ∈ ss, s.operand.kind = .special → txt s.operand.text = s.operand.text)
+    (h2 : ∀ x, Rename.preLists ss = some x → ∀ s ∈ x, Rename.isList s.pkg.additional = true →
+      txt s.operand.text = s.operand.text) : TxtOK ρ txt ss :=
+  ⟨h1, fun x hx s hs hli => by rw [h2 x hx s hs hli, Rename.map_renameElem_lit ρ (hl x hx s hs hli)]⟩
 
-theorem RenOK.listsOK {ρ txt : Str → Str} {ss : List Stmt} (h : RenOK ρ ss) (ht : TxtOK txt ss) :
-    Rename.ListsOK (textRen ρ txt) ss :=
-  fun x hx s hs hl => ⟨h.lists x hx s hs hl, ht.2 x hx s hs hl⟩
+/-- the clause about lists with `renameLeftText` on EVERY element ("the operand text renamed element-wise"): the same
+when all the elements have one of the shapes `SimpleLeft` (a literal of these shapes has no symbol in it) -/
+theorem txtOK_of_leftText {ρ txt : Str → Str} {ss : List Stmt}
+    (h1 : ∀ s ∈ ss, s.operand.kind = .special → txt s.operand.text = s.operand.text)
+    (hsimple : ∀ x, Rename.preLists ss = some x → ∀ s ∈ x, Rename.isList s.pkg.additional = true →
+      ∀ e ∈ listElems s.operand.text, Rename.SimpleLeft e = true)
+    (h2 : ∀ x, Rename.preLists ss = some x → ∀ s ∈ x, Rename.isList s.pkg.additional = true →
+      listElems (txt s.operand.text) = (listElems s.operand.text).map (Rename.renameLeftText ρ)) : TxtOK ρ txt ss :=
+  ⟨h1, fun x hx s hs hl => by rw [h2 x hx s hs hl, Rename.map_renameElem_simple ρ (hsimple x hx s hs hl)]⟩
+
+/-- leaving the texts alone is right when no list has a symbol or an expression among its elements -/
+theorem txtOK_id (ρ : Str → Str) {ss : List Stmt} (hl : NoPendingLists ss) : TxtOK ρ id ss :=
+  txtOK_of_noPending hl (fun _ _ _ => rfl) (fun _ _ _ _ _ => rfl)
+
+theorem RenOK.listsOK {ρ txt : Str → Str} {ss : List Stmt} (h : RenOK ρ ss) (ht : TxtOK ρ txt ss) :
+    Rename.ListsOK (textRen ρ txt) (allNames ss) ss :=
+  fun x hx s hs hl => Rename.listRn_simple ρ (textRen ρ txt) rfl (allNames ss) (ht.2 x hx s hs hl)
+    (h.lists x hx s hs hl)
+    (fun _ he _ hy => List.mem_append.mpr (.inr (Rename.mem_listNames hx hs hl he hy)))
+
+/-- the side conditions in their first form (injective on `progNames`, lists of literals) give `RenOK` -/
+theorem RenOK.of_noPending {ρ : Str → Str} {ss : List Stmt} (inj : Rename.InjOn ρ (Rename.progNames ss))
+    (label : ∀ s ∈ ss, s.label ≠ [] → ρ s.label ≠ [])
+    (left : ∀ s ∈ ss, ∀ l, s.operand.left = .text l →
+      s.row.isStringDefine = false ∧ Rename.SimpleLeft l = true ∧ ∀ x ∈ Rename.leftNames l, Rename.GoodName x (ρ x))
+    (lists : NoPendingLists ss) : RenOK ρ ss := by
+  refine ⟨?_, label, left, listsSimple_of_noPending ρ lists⟩
+  have hn := Rename.listNames_lit lists
+  intro x hx y hy
+  rcases List.mem_append.mp hx with hx | hx
+  · rcases List.mem_append.mp hy with hy | hy
+    · exact inj x hx y hy
+    · exact absurd hy (hn y)
+  · exact absurd hx (hn x)
 
 /-- the statements of `ss` meet what the back end lemmas ask -/
-theorem RenOK.stmtOK {ρ txt : Str → Str} {ss : List Stmt} (h : RenOK ρ ss) (ht : TxtOK txt ss) :
+theorem RenOK.stmtOK {ρ txt : Str → Str} {ss : List Stmt} (h : RenOK ρ ss) (ht : TxtOK ρ txt ss) :
     ∀ s ∈ ss, Rename.StmtOK (textRen ρ txt) s := by
   intro s hs
   refine ⟨?_, ht.1 s hs, h.label s hs⟩
@@ -153,7 +218,7 @@ theorem RenOK.of_uniform {ρ : Str → Str} {ss : List Stmt} (hinj : Rename.InjO
     (hleft : ∀ s ∈ ss, ∀ l, s.operand.left = .text l → s.row.isStringDefine = false ∧ Rename.SimpleLeft l = true)
     (hlists : NoPendingLists ss) :
     RenOK ρ ss := by
-  refine ⟨hinj, ?_, ?_, hlists⟩
+  refine RenOK.of_noPending hinj ?_ ?_ hlists
   · intro s hs hl
     have hm : s.label ∈ Rename.progNames ss :=
       List.mem_flatMap.mpr ⟨s, hs, by simp [Rename.stmtNames, hl]⟩
@@ -169,18 +234,49 @@ theorem RenOK.of_uniform {ρ : Str → Str} {ss : List Stmt} (hinj : Rename.InjO
     simp only [Rename.stmtNames, List.mem_append]
     right; rw [hl]; exact this
 
+/-- `RenOK.of_uniform` with jump tables: every name that occurs (list elements included) is renamed to a symbol, no name
+but `A`, `B`, `D` to one of these, injectively; index left parts and the evaluated list elements are simple -/
+theorem RenOK.of_uniform_lists {ρ : Str → Str} {ss : List Stmt} (hinj : Rename.InjOn ρ (allNames ss))
+    (hgood : ∀ x ∈ allNames ss, Rename.GoodName x (ρ x))
+    (hleft : ∀ s ∈ ss, ∀ l, s.operand.left = .text l → s.row.isStringDefine = false ∧ Rename.SimpleLeft l = true)
+    (hlists : ∀ x, Rename.preLists ss = some x → ∀ s ∈ x, Rename.isList s.pkg.additional = true →
+      ∀ e ∈ listElems s.operand.text, Rename.pendingAny e = true → isABD e = false ∧ Rename.SimpleLeft e = true) :
+    RenOK ρ ss := by
+  refine ⟨hinj, ?_, ?_, ?_⟩
+  · intro s hs hl
+    have hm : s.label ∈ allNames ss :=
+      List.mem_append.mpr (.inl (List.mem_flatMap.mpr ⟨s, hs, by simp [Rename.stmtNames, hl]⟩))
+    have := (hgood _ hm).1
+    intro hc; rw [hc] at this; cases this
+  · intro s hs l hl
+    obtain ⟨h1, h2⟩ := hleft s hs l hl
+    refine ⟨h1, h2, ?_⟩
+    intro x hx
+    apply hgood
+    refine List.mem_append.mpr (.inl (List.mem_flatMap.mpr ⟨s, hs, ?_⟩))
+    have := Rename.sideSyms_simple s.row h1 h2 x hx
+    simp only [Rename.stmtNames, List.mem_append]
+    right; rw [hl]; exact this
+  · intro x hx s hs hl e he hp
+    obtain ⟨h1, h2⟩ := hlists x hx s hs hl e he hp
+    refine ⟨h1, h2, ?_⟩
+    intro y hy
+    apply hgood
+    exact List.mem_append.mpr (.inr (Rename.mem_listNames hx hs hl he (by simp [Rename.elemNames, hp, hy])))
+
 /-! ## the theorem -/
 
 /-- C18-R2 for the back end, the operand texts renamed by `txt` as well (what parsing a renamed source gives) -/
-theorem C18_R2_back_text (ρ txt : Str → Str) (ss : List Stmt) (h : RenOK ρ ss) (ht : TxtOK txt ss) :
+theorem C18_R2_back_text (ρ txt : Str → Str) (ss : List Stmt) (h : RenOK ρ ss) (ht : TxtOK ρ txt ss) :
     back (ss.map (Rename.renameStmt (textRen ρ txt))) = (back ss).map (Rename.rnAssembly (textRen ρ txt)) :=
-  Rename.back_rn ss (Rename.progNames ss) h.inj
-    (fun s hs x hx => List.mem_flatMap.mpr ⟨s, hs, hx⟩) (h.stmtOK ht) (h.listsOK ht)
+  Rename.back_rn ss (allNames ss) h.inj
+    (fun s hs x hx => List.mem_append.mpr (.inl (List.mem_flatMap.mpr ⟨s, hs, hx⟩))) (h.stmtOK ht) (h.listsOK ht)
 
-/-- C18-R2 for the back end: renaming the statements renames the assembly and nothing else -/
-theorem C18_R2_back (ρ : Str → Str) (ss : List Stmt) (h : RenOK ρ ss) :
+/-- C18-R2 for the back end: renaming the statements renames the assembly and nothing else. (`renameStmt` leaves the
+operand texts alone, hence `NoPendingLists`: with a jump table `FDB L1,L2` use `C18_R2_back_text`.) -/
+theorem C18_R2_back (ρ : Str → Str) (ss : List Stmt) (h : RenOK ρ ss) (hl : NoPendingLists ss) :
     back (ss.map (renameStmt ρ)) = (back ss).map (Rename.rnAssembly (symRen ρ)) :=
-  C18_R2_back_text ρ id ss h (txtOK_id ss)
+  C18_R2_back_text ρ id ss h (txtOK_id ρ hl)
 
 /-- what the renamed assembly `a'` has in common with `a` -/
 def SameButNames (ρ : Str → Str) (a a' : Assembly) : Prop :=
@@ -232,7 +328,7 @@ theorem sameButNames_rnAssembly (ρ txt : Str → Str) {ss : List Stmt} {a : Ass
     exact List.mem_map_of_mem hkv
 
 /-- C18-R2 in plain terms, the operand texts renamed by `txt` as well -/
-theorem C18_R2_full_text (ρ txt : Str → Str) (ss : List Stmt) (h : RenOK ρ ss) (ht : TxtOK txt ss) :
+theorem C18_R2_full_text (ρ txt : Str → Str) (ss : List Stmt) (h : RenOK ρ ss) (ht : TxtOK ρ txt ss) :
     (back (ss.map (Rename.renameStmt (textRen ρ txt)))).kind = (back ss).kind ∧
     ∀ a, back ss = .ok a →
       ∃ a', back (ss.map (Rename.renameStmt (textRen ρ txt))) = .ok a' ∧ SameButNames ρ a a' ∧
@@ -249,11 +345,11 @@ the renamed program has the same kind of outcome; when `ss` assembles to `a`, th
 names left in the operand field (`s'.pkg.additional = rnV ρ s.pkg.additional`; equal packages when there are none),
 hence the same op code, post byte, size, ADDRESS and BYTES; the image and the origin are the same; the symbol table has
 the renamed keys and the values `rnV ρ v` — the same numbers. -/
-theorem C18_R2_full (ρ : Str → Str) (ss : List Stmt) (h : RenOK ρ ss) :
+theorem C18_R2_full (ρ : Str → Str) (ss : List Stmt) (h : RenOK ρ ss) (hl : NoPendingLists ss) :
     (back (ss.map (renameStmt ρ))).kind = (back ss).kind ∧
     ∀ a, back ss = .ok a →
       ∃ a', back (ss.map (renameStmt ρ)) = .ok a' ∧ SameButNames ρ a a' ∧ a'.name = a.name := by
-  obtain ⟨h1, h2⟩ := C18_R2_full_text ρ id ss h (txtOK_id ss)
+  obtain ⟨h1, h2⟩ := C18_R2_full_text ρ id ss h (txtOK_id ρ hl)
   refine ⟨h1, ?_⟩
   intro a ha
   obtain ⟨a', h3, h4, h5⟩ := h2 a ha
@@ -262,10 +358,11 @@ theorem C18_R2_full (ρ : Str → Str) (ss : List Stmt) (h : RenOK ρ ss) :
 
 /-- when the symbol table of `a` holds numbers only (labels, EQUs that could be evaluated), the renamed table is the old
 one with renamed keys -/
-theorem C18_R2_symtab (ρ : Str → Str) (ss : List Stmt) (h : RenOK ρ ss) (a : Assembly) (ha : back ss = .ok a)
+theorem C18_R2_symtab (ρ : Str → Str) (ss : List Stmt) (h : RenOK ρ ss) (hl : NoPendingLists ss) (a : Assembly)
+    (ha : back ss = .ok a)
     (hnum : ∀ kv ∈ a.symtab, kv.2.isNumeric = true) :
     ∃ a', back (ss.map (renameStmt ρ)) = .ok a' ∧ a'.symtab = a.symtab.map (fun kv => (ρ kv.1, kv.2)) := by
-  obtain ⟨a', ha', ⟨_, _, _, _, hsym, _⟩, _⟩ := (C18_R2_full ρ ss h).2 a ha
+  obtain ⟨a', ha', ⟨_, _, _, _, hsym, _⟩, _⟩ := (C18_R2_full ρ ss h hl).2 a ha
   refine ⟨a', ha', ?_⟩
   rw [hsym]
   apply List.map_congr_left
@@ -276,10 +373,11 @@ theorem C18_R2_symtab (ρ : Str → Str) (ss : List Stmt) (h : RenOK ρ ss) (a :
 /-- the same for source programs whose expanded statement lists are renamings of each other (this corollary is the
 only statement in this file about `front` / `assemble`; it uses nothing but `assemble_eq`) -/
 theorem C18_R2_assemble (ρ : Str → Str) (fs : Files) (la lb : List Str) (pa : List Stmt)
-    (hfa : front fs la = .ok pa) (hfb : front fs lb = .ok (pa.map (renameStmt ρ))) (h : RenOK ρ pa) :
+    (hfa : front fs la = .ok pa) (hfb : front fs lb = .ok (pa.map (renameStmt ρ))) (h : RenOK ρ pa)
+    (hl : NoPendingLists pa) :
     assemble fs lb = (assemble fs la).map (Rename.rnAssembly (symRen ρ)) := by
   rw [assemble_eq, assemble_eq, hfa, hfb]
-  exact C18_R2_back ρ pa h
+  exact C18_R2_back ρ pa h hl
 
 /-! ## an executable form of the side conditions -/
 
@@ -312,14 +410,38 @@ def noPendingListsB (ss : List Stmt) : Bool := listsAllB ss (fun s => Rename.lit
 theorem noPendingLists_of_check {ss : List Stmt} (h : noPendingListsB ss = true) : NoPendingLists ss :=
   listsAllB_spec h
 
+def elemSimpleB (ρ : Str → Str) (e : Str) : Bool :=
+  !Rename.pendingAny e ||
+    (!isABD e && Rename.SimpleLeft e && (Rename.leftNames e).all (fun y => goodNameB y (ρ y)))
+
+theorem goodName_of_check {x y : Str} (hg : goodNameB x y = true) : Rename.GoodName x y := by
+  simp only [goodNameB, Bool.and_eq_true, Bool.or_eq_true, Bool.not_eq_true'] at hg
+  refine ⟨hg.1, ?_⟩
+  intro hx0
+  rcases hg.2 with h | h
+  · rw [hx0] at h; cases h
+  · exact h
+
+theorem elemSimple_of_check {ρ : Str → Str} {e : Str} (h : elemSimpleB ρ e = true) : Rename.ElemSimple ρ e := by
+  intro hp
+  simp only [elemSimpleB, hp, Bool.not_true, Bool.false_or, Bool.and_eq_true, Bool.not_eq_true',
+    List.all_eq_true] at h
+  exact ⟨h.1.1, h.1.2, fun y hy => goodName_of_check (h.2 y hy)⟩
+
+def listsSimpleB (ρ : Str → Str) (ss : List Stmt) : Bool :=
+  listsAllB ss (fun s => (listElems s.operand.text).all (elemSimpleB ρ))
+
+theorem listsSimple_of_check {ρ : Str → Str} {ss : List Stmt} (h : listsSimpleB ρ ss = true) : ListsSimple ρ ss :=
+  fun x hx s hs hl e he => elemSimple_of_check (List.all_eq_true.mp (listsAllB_spec h x hx s hs hl) e he)
+
 def renOKb (ρ : Str → Str) (ss : List Stmt) : Bool :=
-  injOnB ρ (Rename.progNames ss) && ss.all (fun s => (s.label.isEmpty || !(ρ s.label).isEmpty) && leftOKb ρ s) &&
-    noPendingListsB ss
+  injOnB ρ (allNames ss) && ss.all (fun s => (s.label.isEmpty || !(ρ s.label).isEmpty) && leftOKb ρ s) &&
+    listsSimpleB ρ ss
 
 theorem renOK_of_check {ρ : Str → Str} {ss : List Stmt} (h : renOKb ρ ss = true) : RenOK ρ ss := by
   simp only [renOKb, Bool.and_eq_true, List.all_eq_true] at h
   obtain ⟨⟨h1, h2⟩, h4⟩ := h
-  refine ⟨?_, ?_, ?_, noPendingLists_of_check h4⟩
+  refine ⟨?_, ?_, ?_, listsSimple_of_check h4⟩
   · intro x hx y hy he
     have := h1
     simp only [injOnB, List.all_eq_true, Bool.or_eq_true, bne_iff_ne, beq_iff_eq] at this
@@ -338,13 +460,7 @@ theorem renOK_of_check {ρ : Str → Str} {ss : List Stmt} (h : renOKb ρ ss = t
     simp only [leftOKb, hl, Bool.and_eq_true, Bool.not_eq_true', List.all_eq_true] at this
     refine ⟨this.1.1, this.1.2, ?_⟩
     intro x hx
-    have hg := this.2 x hx
-    simp only [goodNameB, Bool.and_eq_true, Bool.or_eq_true, Bool.not_eq_true'] at hg
-    refine ⟨hg.1, ?_⟩
-    intro hx0
-    rcases hg.2 with h | h
-    · rw [hx0] at h; cases h
-    · exact h
+    exact goodName_of_check (this.2 x hx)
 
 /-! ## lifting to source texts by a check
 
@@ -369,7 +485,8 @@ def txtOf (pa pb : List Stmt) : Str → Str :=
 def renamedTextB (ρ : Str → Str) (pa pb : List Stmt) : Bool :=
   renOKb ρ pa && decide (pb = pa.map (Rename.renameStmt (textRen ρ (txtOf pa pb)))) &&
     pa.all (fun s => s.operand.kind != .special || txtOf pa pb s.operand.text == s.operand.text) &&
-    listsAllB pa (fun s => txtOf pa pb s.operand.text == s.operand.text)
+    listsAllB pa (fun s => listElems (txtOf pa pb s.operand.text)
+      == (listElems s.operand.text).map (Rename.renameElemText ρ))
 
 /-- C18-R2 for two statement lists that pass the check (e.g. the parsed forms of a source and of its textual renaming) -/
 theorem C18_R2_text_check (ρ : Str → Str) (pa pb : List Stmt) (h : renamedTextB ρ pa pb = true) :
@@ -377,7 +494,7 @@ theorem C18_R2_text_check (ρ : Str → Str) (pa pb : List Stmt) (h : renamedTex
   simp only [renamedTextB, Bool.and_eq_true, decide_eq_true_eq, List.all_eq_true, Bool.or_eq_true, bne_iff_ne,
     beq_iff_eq] at h
   obtain ⟨⟨⟨h1, h2⟩, h3⟩, h5⟩ := h
-  have ht : TxtOK (txtOf pa pb) pa := by
+  have ht : TxtOK ρ (txtOf pa pb) pa := by
     refine ⟨?_, ?_⟩
     · intro s hs hk
       rcases h3 s hs with h | h
@@ -495,6 +612,11 @@ theorem progRB_check : plainCheckB progRB (fun a => decide (a.image = some image
 theorem progRA_renOK : RenOK ρW (parsedOf progRA) :=
   renOK_of_check (by set_option maxRecDepth 1000000 in decide +kernel)
 
+/-- no statement of the witness reaches the list pass as a byte / word list with a symbol or an expression in it
+(`FDB START`, `FDB TABLE+2` are single values, not lists) -/
+theorem progRA_noPending : NoPendingLists (parsedOf progRA) :=
+  noPendingLists_of_check (by set_option maxRecDepth 1000000 in decide +kernel)
+
 /-- parsing the renamed TEXT gives the renamed STATEMENTS (up to the operand text the listing shows) -/
 theorem progR_parsed : (parsedOf progRB).map eraseText = ((parsedOf progRA).map (renameStmt ρW)).map eraseText := by
   set_option maxRecDepth 1000000 in decide +kernel
@@ -523,8 +645,8 @@ theorem C18_R2_witness :
     by rw [hcB'.2, hcA'.2], ?_⟩
   have hnum : ∀ kv ∈ A.symtab, kv.2.isNumeric = true := by
     rw [hcA'.2]; decide
-  obtain ⟨A', hA', ⟨_, _, himg, _, _, _⟩, _⟩ := (C18_R2_full ρW _ progRA_renOK).2 A hA
-  obtain ⟨A'', hA'', hsym⟩ := C18_R2_symtab ρW _ progRA_renOK A hA hnum
+  obtain ⟨A', hA', ⟨_, _, himg, _, _, _⟩, _⟩ := (C18_R2_full ρW _ progRA_renOK progRA_noPending).2 A hA
+  obtain ⟨A'', hA'', hsym⟩ := C18_R2_symtab ρW _ progRA_renOK progRA_noPending A hA hnum
   rw [hA'] at hA''
   cases hA''
   exact ⟨A', hA', by rw [himg, hcA'.1, hcB'.1], by rw [hsym, hcB'.2, hcA'.2]⟩
@@ -595,6 +717,83 @@ theorem C18_R2_witness_lists :
   obtain ⟨B, hB, hs⟩ := (C18_R2_text_check ρL _ _ progL_renamedText).2 A hA
   exact ⟨hr, A, B, hA, hB, hs, hcA', by rw [hs.2.2.1, hcA']⟩
 
+/-! ## a witness with a jump table (batch 8, generalised)
+
+`T FDB L1,L2,T,L1+1`: the elements of the list are labels and a label expression; they are evaluated from the operand
+TEXT, which the textual renaming renames element by element. `NoPendingLists` fails, `RenOK` (with `ListsSimple`) and
+the check of `C18_R2_text_check` hold: the theorem applies. -/
+
+def progJA : List Str := [
+  "        ORG $1000\n",
+  "T       FDB L1,L2,T,L1+1\n",
+  "L1      NOP\n",
+  "L2      RTS\n"].map String.toList
+
+def progJB : List Str := [
+  "        ORG $1000\n",
+  "TBL     FDB ST_1,AB,TBL,ST_1+1\n",
+  "ST_1    NOP\n",
+  "AB      RTS\n"].map String.toList
+
+def renJ : List (Str × Str) :=
+  [("T", "TBL"), ("L1", "ST_1"), ("L2", "AB")].map (fun p => (p.1.toList, p.2.toList))
+
+def ρJ (x : Str) : Str := match renJ.find? (·.1 == x) with | some p => p.2 | none => x
+
+def imageJ : Bytes := [16, 8, 16, 9, 16, 0, 16, 9, 18, 57]
+
+def symtabJ : SymTab :=
+  [("T".toList, .numeric 4096 none .extended false), ("L1".toList, .numeric 4104 none .extended false),
+   ("L2".toList, .numeric 4105 none .extended false)]
+
+set_option maxRecDepth 1000000 in
+theorem progJA_check : plainCheckB progJA (fun a => decide (a.image = some imageJ ∧ a.symtab = symtabJ)) = true := by
+  decide +kernel
+
+set_option maxRecDepth 1000000 in
+theorem progJB_check : plainCheckB progJB (fun a => decide (a.image = some imageJ ∧
+    a.symtab = symtabJ.map (fun kv => (ρJ kv.1, kv.2)))) = true := by
+  decide +kernel
+
+set_option maxRecDepth 1000000 in
+/-- the parsed renamed source is the parsed source renamed, the texts of the lists element by element; the side
+conditions hold -/
+theorem progJ_renamedText : renamedTextB ρJ (parsedOf progJA) (parsedOf progJB) = true := by
+  decide +kernel
+
+set_option maxRecDepth 1000000 in
+/-- the list of the witness is not a list of literals: the first version of the theorem did not cover it -/
+theorem progJA_pending : noPendingListsB (parsedOf progJA) = false := by
+  decide +kernel
+
+set_option maxRecDepth 1000000 in
+/-- the elements of the list that the list pass evaluates, renamed -/
+theorem progJA_elems : (match Rename.preLists (parsedOf progJA) with
+    | some x => (x.filter (fun s => Rename.isList s.pkg.additional)).map
+        (fun s => (listElems s.operand.text).map (fun e => (Rename.pendingAny e, Rename.renameElemText ρJ e)))
+    | none => []) = [[(true, "ST_1".toList), (true, "AB".toList), (true, "TBL".toList), (true, "ST_1+1".toList)]] := by
+  decide +kernel
+
+/-- C18-R2 on a program with a jump table: the side conditions (with `ListsSimple`) hold, the renamed source assembles
+to the same image, the symbol table is the renamed one -/
+theorem C18_R2_witness_jumptable :
+    RenOK ρJ (parsedOf progJA) ∧
+    ∃ A B, back (parsedOf progJA) = .ok A ∧ back (parsedOf progJB) = .ok B ∧ SameButNames ρJ A B ∧
+      A.image = some imageJ ∧ B.image = A.image ∧ A.symtab = symtabJ ∧
+      B.symtab = A.symtab.map (fun kv => (ρJ kv.1, kv.2)) := by
+  obtain ⟨_, A, hA, hcA⟩ := plainCheckB_parts progJA_check
+  obtain ⟨_, B', hB', hcB⟩ := plainCheckB_parts progJB_check
+  have hcA' := of_decide_eq_true hcA
+  have hcB' := of_decide_eq_true hcB
+  have hr : RenOK ρJ (parsedOf progJA) := by
+    have h := progJ_renamedText
+    simp only [renamedTextB, Bool.and_eq_true] at h
+    exact renOK_of_check h.1.1.1
+  obtain ⟨B, hB, hs⟩ := (C18_R2_text_check ρJ _ _ progJ_renamedText).2 A hA
+  have e : B = B' := by rw [hB] at hB'; exact Outcome.ok.inj hB'
+  subst e
+  exact ⟨hr, A, B, hA, hB, hs, hcA'.1, by rw [hcB'.1, hcA'.1], hcA'.2, by rw [hcB'.2, hcA'.2]⟩
+
 /-! ## the first formalisation `C18_R2_Statement` (Props/C18.lean) is too loose
 
 `RenamedStmt ρ s t` relates label, row, operand kind, value, left and right part, but NOT the operand text — and the
@@ -659,6 +858,12 @@ theorem C18_R2_Statement_false : ¬ C18_R2_Statement := by
 #print axioms C18_R2_witness
 #print axioms C18_R2_witness_assemble
 #print axioms C18_R2_witness_lists
+#print axioms C18_R2_back_text
+#print axioms C18_R2_full_text
+#print axioms RenOK.of_noPending
+#print axioms C18_R2_witness_jumptable
+#print axioms progJA_pending
+#print axioms progJA_elems
 #print axioms progLA_lists
 #print axioms C18_R2_Statement_false
 
